@@ -41,7 +41,61 @@ def check(chk):
     r712(chk, m)
     from . import c11
     c11.r111(chk, m, rule_id='R7.13')      # a verbatim scan that misses its end swallows the rest of the document
+    r714(chk, m)
     chk.decline('word order and multiplicity for concrete documents; parent chains of every generated tree (runtime)')
+
+
+def r714(chk, m):
+    R = chk.rule('R7.14', 'an expanded argument gets the typographic substitutions: readArgumentAndSource, interpreted with a scripted '
+                 'reader that returns a document fragment, normalises that fragment exactly once with the substitution list in force - the '
+                 'one handed in, or the document\'s own when none is given (section titles are never normalised again later)', 2)
+    TeX = m.cls('plasTeX.TeX', 'TeX')
+    fn = m.find_method(TeX, 'readArgumentAndSource')
+    need(fn is not None, 'TeX.readArgumentAndSource not found')
+    chk.analysed(fn)
+    Macro = m.cls('plasTeX', 'Macro')
+    FRAG = m.class_const(Macro, 'DOCUMENT_FRAGMENT_NODE')
+    need(isinstance(FRAG, int), 'Macro.DOCUMENT_FRAGMENT_NODE not found')
+
+    class H(SelfHooks):
+        def lookup(self, interp, name, state):
+            return None
+
+        def keep(self, ev):
+            return False
+
+        def call(self, interp, node, fname, args, kwargs, state):
+            if fname in ('self.readToken', 'self.readGrouping', 'self.readCharacter'):
+                return (state.env['__frag'], 'src')
+            if fname == 'the.fragment.normalize':
+                a = args[0] if args else kwargs.get('charsubs', 'no argument')
+                state.env['__norm'] = state.env.get('__norm', ()) + (repr(a) if A._plain(a) else 'TOP',)
+                return A.NONE
+            if re.search(r'ParameterCommand\.(enable|disable)$', fname) or re.match(r'\w*log\.\w+$', fname):
+                return A.NONE
+            return None
+    DOCSUBS, OWN = [('--', 'EN')], [("''", 'RDQ')]
+    for label, given, want in (('no list handed in: the document\'s substitutions', None, DOCSUBS), ('a list handed in', OWN, OWN)):
+        h = H(m, TeX)
+        h.should_inline = lambda fname, node, info: info is None or info.name not in ('readToken', 'readGrouping', 'readCharacter', 'expandTokens', 'normalize')
+        it = A.Interp(model=m, scope=fn, hooks=h, max_iter=4, exc_edges=False, inline=5, heap=True, precise_exc=True)
+        frag = A.Obj('fragment', {'nodeType': FRAG, 'normalize': A.Sym('extfunc:the.fragment.normalize', truthy=True), 'parentNode': None})
+        ctx = A.Obj('context', {})
+        me = A.Obj('tex', {'argtypes': {}, 'ownerDocument': A.Obj('document', {'context': ctx, 'charsubs': list(DOCSUBS)})}, cls=TeX)
+        env = {a.arg: None for a in fn.node.args.args[1:] + fn.node.args.kwonlyargs}
+        env.update({'self': me, 'spec': None, 'type': None, 'subtype': None, 'delim': ',', 'expanded': True, 'default': None,
+                    'parentNode': A.Obj('parent', {'nodeName': 'section'}), 'name': 'title', 'stripLeadingWhitespace': False, 'charsubs': given, '__frag': frag})
+        try:
+            outs = it.run_function(fn, env=env)
+        except AnalysisError as e:
+            chk.undecided(R, label, str(e), chk.where(fn))
+            continue
+        if it.imprecise or it.unknown_branches:
+            chk.undecided(R, label, '; '.join((list(it.imprecise) + list(it.unknown_branches))[:3]), chk.where(fn))
+            continue
+        got = {(kind if kind != 'raise' else 'raise %s' % v, s2.env.get('__norm', ())) for kind, s2, v in outs}
+        chk.decide(R, label, got, {('return', (repr(want),))},
+                   'an expanded fragment argument (%s) is normalised with %s; expected exactly one normalize(%r)' % (label, sorted(got, key=repr), want), chk.where(fn))
 
 
 # ---------------------------------------------------------------------------
